@@ -742,11 +742,11 @@ m('C20', 'Fourier.fourier_arguments without re-check', TIME,
   "        self._ftarg = ftarg\n        self._check_time()\n\n    def interpolate",
   "        self._ftarg = ftarg\n\n    def interpolate", 'C20.F5')
 m('C13', 'noise_floor getter keyed on the stored array', SURV,
-  "        if isinstance(self.data.noise_floor, str):",
+  "        if isinstance(self.data.attrs['noise_floor'], str):",
   "        if '_noise_floor' in self.data.keys():", 'C13.N3.flag')
-n('C13', 'noise_floor getter reads the attrs dict', SURV,
-  "        if isinstance(self.data.noise_floor, str):",
-  "        if isinstance(self.data.attrs['noise_floor'], str):")
+n('C13', 'noise_floor getter reads the attrs of _data', SURV,
+  "        if isinstance(self.data.attrs['noise_floor'], str):",
+  "        if isinstance(self._data.attrs['noise_floor'], str):")
 m('C19', 'extract_1d: averaging branch on the requested method', MODELS,
   "            if not midpoint:\n                if not self.map.name.startswith('L'):",
   "            if method != 'midpoint':\n                if not self.map.name.startswith('L'):",
@@ -937,3 +937,6 @@ m('C10', 'point source: linear fraction not clamped below the first centre (defe
 m('C10', 'min_max_ind: index of the last node not limited (defect F28)', FIELDS,
   "        return [min(vector.size-2, imin), min(vector.size-2, imax)]", "        return [imin, imax]",
   'C10.DV.clipping')
+m('C13', 'noise_floor getter through the Dataset shorthand (defect F29)', SURV,
+  "        if isinstance(self.data.attrs['noise_floor'], str):", "        if isinstance(self.data.noise_floor, str):",
+  'C13.N3.flag')
